@@ -112,3 +112,13 @@ func Harness_C10L2_string_slices() {
 	verifAssert(got == sameStrs(xs, ys), "record holding a slice of strings")
 	verifCover("end")
 }
+
+func Harness_C10L2_bool_literals() {
+	b := verifBool("b")
+	a := verifInt("a")
+	t := q_bool_lits(b)
+	verifAssert(t.E0.E0 == b && t.E0.E1 == !b && t.E1.E0 == !b && t.E1.E1 == b, "= / <> against the literals true and false")
+	u := q_bool_lits_left(b, a)
+	verifAssert(u.E0.E0 == b && u.E0.E1 == b && u.E1.E0 == (a > 1) && u.E1.E1 == (a > 1), "bool literals on the left; comparisons compared with literals")
+	verifCover("end")
+}
